@@ -2,7 +2,7 @@
    Statements only; proofs in Proof/SlipLemmas.v; model Model/Slip.v.
    [pdecode] is one call of the decoder on an octet list, [trace] the results of calling it again
    and again until the input is exhausted (both tied to rfc1055_decode by ./check C12). *)
-From Ufw Require Import Base.Bits Model.Slip Proof.SlipLemmas.
+From Ufw Require Import Base.Bits Base.Errno Model.Endpoints Model.Slip Proof.LenpLemmas Proof.SlipLemmas Proof.SlipOperational.
 Local Open Scope N_scope.
 
 (* decoding the encoding returns exactly the payload, signals end-of-frame, leaves what follows *)
@@ -75,3 +75,21 @@ Example C12_example :
   trace true SearchEnd ([1; 2] ++ slip_encode true [7] ++ slip_encode true [8; 9]) [] =
     [(PIlseq, []); (PFrame, [8; 9]); (PNoData, [])].
 Proof. split; vm_compute; reflexivity. Qed.
+
+(* the operational decoder and encoder (one call of rfc1055_decode / rfc1055_encode over endpoints) on a plain source and
+   an accepting sink ARE the structural decoder and the specification encoder the theorems above are about -
+   in every decoder state, classic and start-of-frame mode, octet- and chunk-style sources *)
+Theorem C12_operational_decoder : forall sof st oct inp calls got kc,
+  exists calls' kc',
+    slip_decode_op sof st (plain_src oct inp calls) (plain_snk false got kc) =
+    let '(pr, out, rest, st') := pdecode sof st inp got in
+    Some (drc_of pr, st', plain_src oct rest calls', plain_snk false out kc').
+Proof. exact slip_decode_op_plain. Qed.
+Print Assumptions C12_operational_decoder.
+
+Theorem C12_operational_encoder : forall sof oct inp calls got kc,
+  exists calls' kc',
+    slip_encode_op sof (plain_src oct inp calls) (plain_snk false got kc)
+    = Some (None, plain_src oct [] calls', plain_snk false (got ++ slip_encode sof inp) kc').
+Proof. exact slip_encode_op_plain. Qed.
+Print Assumptions C12_operational_encoder.
